@@ -60,7 +60,7 @@ func main() {
 	var runs []run
 	if r.Quick() {
 		runs = []run{
-			{hist.EnvFam{Cfg: "both", Vals: []string{"2", "-"}, WithNoop: true, Sandbox: true}, 2},
+			{hist.EnvFam{Cfg: "both", Vals: []string{"2", "-", "e"}, WithNoop: true, Sandbox: true}, 2},
 			{hist.EnvFam{Cfg: "none", Vals: []string{"2"}, WithRm: true, Sandbox: true}, 2},
 		}
 	} else {
